@@ -43,7 +43,7 @@ RULE = (
     "case = (device kind: switch | binary sensor with reset_after | with context_timeout | with both, thresholds from {0.5,1,2.5} s, invert, ignore_internal_state, "
     "address layout: single address | command + state + passive addresses (each telegram delivered on any of the device's addresses), "
     "injection mode: through cEMI+telegram queue or Device.process directly, history of [gap, settle, on/off write/response, settle] steps); "
-    "all histories of up to 3 (quick) / 4 (thorough) telegrams with gaps from {0, thr/2, thr-1/64, thr, thr+1/64, 2*thr} are enumerated per configuration, for the multi-address Switch up to 3 telegrams over {on@command, on@state, on@passive, off@state}; longer ones (<= 10 telegrams) sampled; "
+    "all histories of up to 3 (quick) / 4 (thorough) telegrams with gaps from {0, thr/2, thr-1/64, thr, thr+1/64, 2*thr} are enumerated per configuration, for the multi-address Switch up to 3 telegrams over {on@command, on@state, on@passive, off@state}, for the BinarySensor with reset_after up to 3 telegrams over {on, off} x {write, response}; longer ones (<= 10 telegrams) sampled; "
     "non-trivial = at least two telegrams with some inter-arrival gap <= threshold + 1/64 s (a timer restart, a burst, a boundary or an exact tie is exercised); distinct by case"
 )
 LEVEL_TEXT = "Generated on/off telegram histories are run against the real devices in virtual time; state samples, device callbacks, counter values and the reset telegrams on a recording interface are compared with a reference timer/counter model written from the property statement."
@@ -52,7 +52,8 @@ ASSUMPTIONS = [
     "all instants are multiples of 1/64 s (exact in binary floating point); 'exactly' means equality of virtual-clock readings",
     "simultaneous events (a telegram arriving at the very instant a reset or context deadline expires) may be served in either order: the report of the expiring deadline is optional there, a Switch's state is not asserted until its next event, but every report that is made must carry the right time and counter",
     "an 'off' telegram before the deadline: the statement does not say whether the timer is cancelled; a redundant 'off' report at last-'on' + reset_after is tolerated (counted in notes), a missing one too",
-    "BinarySensor is driven with GroupValueWrite telegrams only: it deliberately ignores a GroupValueResponse that does not change the value last seen on the bus (so an 'on' response after a timed reset neither sets the state nor starts the timer) and the statement is silent on state-sync answers; Switch is driven with writes and responses",
+    "BinarySensor with reset_after is driven with GroupValueWrite and GroupValueResponse telegrams ('on'/'off'), every 'on' it processes, write or response, restarts the reset timer; one situation is kept out of the judged domain: an 'on' GroupValueResponse that arrives after a timed reset (or at the very instant the timer expires) and before any GroupValueWrite / 'off' response - on the pinned tree the value last seen on the bus is still 'on' then, so the device deliberately treats the answer as unchanged (statement silent on state-sync answers); such histories are not generated / skipped on replay (counted in notes)",
+    "BinarySensor with context_timeout is driven with GroupValueWrite telegrams only (the device counts only writes when the state does not change); Switch is driven with writes and responses",
     "mixed-state bursts and devices with both reset_after and context_timeout: only report timing (both reports at the close instant, second with counter 0), state samples and absence of exceptions are asserted",
     "every 'on' telegram the device processes restarts the reset timer, whatever address of the device (command, state, passive) it arrived on; the Switch's own reset telegram goes to its command address",
     "rate limit 0; sync_state off (no GroupValueRead traffic); device driven either through the cEMI receive path + telegram queue or by Device.process() directly (as xknx.devices.process and the unit tests do)",
@@ -85,6 +86,32 @@ def _events(case):
 
 def tail_ticks(case) -> int:
     return 2 * max(case.get("R") or 0, case.get("T") or 0) + 8
+
+
+def in_domain(case) -> bool:
+    """False for the one excluded situation: BinarySensor, an 'on' GroupValueResponse after a
+    timed reset (or exactly at the expiry) and before any write / 'off' response."""
+    if case["dev"] == "switch" or not case.get("R"):
+        return True
+    R = case["R"]
+    on = False
+    deadline = None
+    stale = False  # timed reset happened, value last seen on the bus still 'on'
+    for t, is_on, is_write, _i in _events(case):
+        if on and deadline is not None and deadline <= t:
+            on, deadline, stale = False, None, True
+        if is_write:
+            stale = False
+            on = is_on
+            deadline = t + R if is_on else None
+        elif is_on:
+            if stale:
+                return False
+            on, deadline = True, t + R
+        else:
+            stale = False
+            on, deadline = False, None
+    return True
 
 
 def execute(case):
@@ -238,6 +265,12 @@ def selftest(ctx) -> None:
     assert reset_state(ev, 64, 300, False) == (True, True)
     b = bursts([(0, True, True, 0), (63, True, True, 1), (127, False, True, 2), (191, True, True, 3)], 64)
     assert [len(x) for x in b] == [2, 1, 1]
+    base = {"dev": "bs_reset", "R": 64, "mode": "bus"}
+    assert in_domain(dict(base, steps=[[0, True, "on", True], [32, True, "ron", True]]))  # response while the timer runs
+    assert not in_domain(dict(base, steps=[[0, True, "on", True], [64, True, "ron", True]]))  # at the expiry
+    assert not in_domain(dict(base, steps=[[0, True, "on", True], [100, True, "ron", True]]))  # after the timed reset
+    assert in_domain(dict(base, steps=[[0, True, "on", True], [100, True, "off", True], [1, True, "ron", True]]))  # a write in between
+    assert in_domain(dict(base, dev="switch", steps=[[0, True, "on", True], [100, True, "ron", True]]))
 
 
 # --------------------------------------------------------------------------- oracle
@@ -371,6 +404,8 @@ def classify(case):
     ths = [x for x in (case.get("R"), case.get("T")) if x]
     gaps = [b[0] - a[0] for a, b in zip(events, events[1:])]
     cls = [case["dev"], case["mode"]]
+    if case["dev"] != "switch" and any(stp[2] in ("ron", "roff") for stp in case["steps"]):
+        cls.append("bs-response-telegram")
     if case.get("addrs") == "multi":
         cls.append("multi-address")
         if any(len(stp) > 4 and stp[4] for stp in case["steps"]):
@@ -392,6 +427,9 @@ def classify(case):
 
 
 def check_case(ctx, case) -> None:
+    if not in_domain(case):
+        ctx.notes["skipped_response_after_timed_reset"] = ctx.notes.get("skipped_response_after_timed_reset", 0) + 1
+        return
     try:
         obs = execute(case)
     except (BudgetExceeded, Deadlock):
@@ -426,6 +464,9 @@ def _enum_shard(ctx, dev, mode, Lmax, addrs="single") -> None:
     cfg = _config(dev, th, 32, False, False, mode)
     gaps = _gapset(th)
     kinds = [("on", 0), ("off", 0)]
+    if addrs == "resp":
+        # writes and responses mixed (BinarySensor with reset_after)
+        kinds = [("on", 0), ("off", 0), ("ron", 0), ("roff", 0)]
     if addrs == "multi":
         # 'on' on the command / state / a passive address, 'off' on the state address
         cfg["addrs"] = "multi"
@@ -438,6 +479,9 @@ def _enum_shard(ctx, dev, mode, Lmax, addrs="single") -> None:
         for gs in itertools.product(gaps, repeat=L - 1):
             for ks in itertools.product(kinds, repeat=L):
                 case = dict(cfg, steps=[[g, s, k, s, ai] for g, (k, ai) in zip((0, *gs), ks)])
+                if not in_domain(case):
+                    ctx.notes["skipped_response_after_timed_reset"] = ctx.notes.get("skipped_response_after_timed_reset", 0) + 1
+                    continue
                 check_case(ctx, case)
                 n += 1
                 if classify(case)[0]:
@@ -455,7 +499,7 @@ def cases(draw):
     cfg = _config(dev, th, th2, draw(st.booleans()), draw(st.booleans()), draw(st.sampled_from(["bus", "direct"])))
     ths = sorted({x for x in (cfg.get("R"), cfg.get("T")) if x})
     gapvals = sorted({g for t in ths for g in _gapset(t)} | {1, 2})
-    kinds = ["on", "on", "off", "ron", "roff"] if dev == "switch" else ["on", "off"]
+    kinds = ["on", "on", "off", "ron", "ron", "roff"] if dev in ("switch", "bs_reset") else ["on", "off"]
     if dev == "bs_ctx" and draw(st.booleans()):
         kinds = [draw(st.sampled_from(["on", "off"]))]  # pure runs
     n = draw(st.integers(1, 10))
@@ -480,7 +524,7 @@ def _hyp_oracle(ctx, case) -> None:
 
 
 def _hyp_shard(ctx, n: int) -> None:
-    hyp_search(ctx, cases(), _hyp_oracle, n, shrink_cap_s=5.0 if ctx.quick else 30.0)
+    hyp_search(ctx, cases().filter(in_domain), _hyp_oracle, n, shrink_cap_s=5.0 if ctx.quick else 30.0)
 
 
 
@@ -497,6 +541,7 @@ def run(ctx) -> None:
     Lmax = ctx.n(3, 4)
     jobs = [(dev, mode, Lmax) for dev in DEVS for mode in ("bus", "direct")]
     jobs += [("switch", mode, 3, "multi") for mode in ("bus", "direct")]
+    jobs += [("bs_reset", mode, 3, "resp") for mode in ("bus", "direct")]
     parallel(ctx, _enum_shard, jobs, procs=_procs())
     parallel(ctx, _hyp_shard, [(ctx.n(300, 4000),)] * 8, procs=_procs())
     ctx.notes["exhaustive_up_to_telegrams"] = Lmax
